@@ -266,66 +266,74 @@ pub fn row_vals(table: &[[F; 4]], i: usize) -> RowVals {
     }
 }
 
+/// identities of one row of the compiled layout (appends what is violated)
+pub fn eval_row(layout: &Layout, table: &[[F; 4]], pi: &[F], i: usize, out: &mut Vec<Unsat>) {
+    let zero = F::zero();
+    let r = &layout.rows[i];
+
+    let v = row_vals(table, i);
+    let p = pi.get(i).copied().unwrap_or(zero);
+    if r.sel[Q_ARITH] * arith_inner(&r.sel, &v) + p != zero {
+        out.push(Unsat {
+            row: i,
+            family: "arithmetic",
+            component: "arithmetic+PI",
+        });
+    }
+    if r.sel[Q_RANGE] != zero {
+        for (k, c) in range_components(&v).iter().enumerate() {
+            if *c != zero {
+                out.push(Unsat {
+                    row: i,
+                    family: "range",
+                    component: RANGE_NAMES[k],
+                });
+            }
+        }
+    }
+    if r.sel[Q_LOGIC] != zero {
+        for (k, c) in logic_components(&r.sel, &v).iter().enumerate() {
+            if *c != zero {
+                out.push(Unsat {
+                    row: i,
+                    family: "logic",
+                    component: LOGIC_NAMES[k],
+                });
+            }
+        }
+    }
+    if r.sel[Q_FIXED] != zero {
+        for (k, c) in fixed_components(&r.sel, &v).iter().enumerate() {
+            if *c != zero {
+                out.push(Unsat {
+                    row: i,
+                    family: "fixed-base",
+                    component: FIXED_NAMES[k],
+                });
+            }
+        }
+    }
+    if r.sel[Q_VAR] != zero {
+        for (k, c) in var_components(&v).iter().enumerate() {
+            if *c != zero {
+                out.push(Unsat {
+                    row: i,
+                    family: "variable-base",
+                    component: VAR_NAMES[k],
+                });
+            }
+        }
+    }
+}
+
 /// Reference row-by-row evaluation of gate identities. `layout` is the
 /// COMPILED description; `table` the instance's wire values on the padded
 /// domain; `pi` the instance's dense public-input values per row.
 pub fn eval_rows(layout: &Layout, table: &[[F; 4]], pi: &[F]) -> Vec<Unsat> {
     let mut out = Vec::new();
     let zero = F::zero();
-    for (i, r) in layout.rows.iter().enumerate() {
-        let v = row_vals(table, i);
-        let p = pi.get(i).copied().unwrap_or(zero);
-        if r.sel[Q_ARITH] * arith_inner(&r.sel, &v) + p != zero {
-            out.push(Unsat {
-                row: i,
-                family: "arithmetic",
-                component: "arithmetic+PI",
-            });
-        }
-        if r.sel[Q_RANGE] != zero {
-            for (k, c) in range_components(&v).iter().enumerate() {
-                if *c != zero {
-                    out.push(Unsat {
-                        row: i,
-                        family: "range",
-                        component: RANGE_NAMES[k],
-                    });
-                }
-            }
-        }
-        if r.sel[Q_LOGIC] != zero {
-            for (k, c) in logic_components(&r.sel, &v).iter().enumerate() {
-                if *c != zero {
-                    out.push(Unsat {
-                        row: i,
-                        family: "logic",
-                        component: LOGIC_NAMES[k],
-                    });
-                }
-            }
-        }
-        if r.sel[Q_FIXED] != zero {
-            for (k, c) in fixed_components(&r.sel, &v).iter().enumerate() {
-                if *c != zero {
-                    out.push(Unsat {
-                        row: i,
-                        family: "fixed-base",
-                        component: FIXED_NAMES[k],
-                    });
-                }
-            }
-        }
-        if r.sel[Q_VAR] != zero {
-            for (k, c) in var_components(&v).iter().enumerate() {
-                if *c != zero {
-                    out.push(Unsat {
-                        row: i,
-                        family: "variable-base",
-                        component: VAR_NAMES[k],
-                    });
-                }
-            }
-        }
+    for i in 0..layout.rows.len() {
+        eval_row(layout, table, pi, i, &mut out);
     }
     // public inputs on rows beyond the description cannot be cancelled
     for (i, p) in pi.iter().enumerate().skip(layout.rows.len()) {
